@@ -1,4 +1,4 @@
-import argparse, importlib, os, sys
+import argparse, importlib, os, sys, traceback
 sys.path.insert(0, os.path.dirname(os.path.abspath(__file__)))
 sys.setrecursionlimit(10000)
 import lib
@@ -9,5 +9,18 @@ ap.add_argument("--tier", default=os.environ.get("VERIF_TIER", "quick"))
 ap.add_argument("--replay")
 a = ap.parse_args()
 seed = int(os.environ.get("VERIF_SEED", "1"))
-mod = importlib.import_module("props." + a.prop.lower())
-sys.exit(lib.main(mod, a.prop, a.tier, seed, a.replay))
+try:
+    mod = importlib.import_module("props." + a.prop.lower())
+    rc = lib.main(mod, a.prop, a.tier, seed, a.replay)
+except (KeyboardInterrupt, SystemExit):
+    raise
+except BaseException:  # noqa
+    # fail closed: the check itself could not run to the end on this tree (the implementation raised where the harness
+    # relies on it, e.g. while importing or setting up).  The property is not shown to hold.
+    tb = traceback.format_exc()
+    sys.stderr.write(tb)
+    path = lib.write_replay(a.prop, {"property": a.prop, "broken": "the check could not run to the end on this tree",
+                                     "detail": tb[-3000:]})
+    print("VIOLATION property=%s replay=%s no-failing-input-found" % (a.prop, path))
+    rc = 1
+sys.exit(rc)
